@@ -992,6 +992,22 @@ func c05Crafted(r *kit.Rand) ([]byte, string) {
 		}
 		n := alloc()
 		rev.Actions[n] = kit.XAction{Value: &kit.XStream{Dict: kit.XDict{"Filter": chain, "Subtype": kit.XName("Image")}, Raw: jpg}}
+		if r.Bool() {
+			// ... as the content stream of a page (alone or between two ordinary ones)
+			what += "-as-page-contents"
+			contents := kit.XArray{kit.XRef{Num: n}}
+			if r.Bool() {
+				a, z := alloc(), alloc()
+				rev.Actions[a] = kit.XAction{Value: &kit.XStream{Dict: kit.XDict{}, Raw: []byte("q 1 0 0 1 0 0 cm")}}
+				rev.Actions[z] = kit.XAction{Value: &kit.XStream{Dict: kit.XDict{}, Raw: []byte("Q")}}
+				contents = kit.XArray{kit.XRef{Num: a}, kit.XRef{Num: n}, kit.XRef{Num: z}}
+			}
+			pg := alloc()
+			rev.Actions[pg] = kit.XAction{Value: kit.XDict{"Type": kit.XName("Page"), "Parent": kit.XRef{Num: 2},
+				"MediaBox": kit.XArray{int64(0), int64(0), int64(200), int64(200)}, "Contents": contents, "Resources": kit.XDict{}}}
+			pagesRoot["Kids"] = kit.XArray{kit.XRef{Num: pg}}
+			pagesRoot["Count"] = int64(1)
+		}
 	case 0, 1: // a name (or number) tree whose every level lists the same child several times
 		key, leafKey := "Names", "Names"
 		what = fmt.Sprintf("name-tree-shared-kids(levels=%d,fan=%d)", levels, fan)
